@@ -1196,6 +1196,7 @@ void Validator::ValidatorImpl::validateUnits(const UnitsPtr &units, History &his
                     validateUnits(importedUnits, history, modelsVisited, importSource->url());
                     modelsVisited.pop_back();
                 }
+                history.pop_back();
             } else {
                 auto issue = Issue::IssueImpl::create();
                 issue->mPimpl->setDescription("Imported units '" + units->name() + "' refers to units '" + unitsRef + "' which does not appear in '" + importSource->url() + "'.");
